@@ -765,20 +765,26 @@ class SymReal:
         real constraint n <= x < n + 1, so the path condition stays in nonlinear REAL arithmetic)"""
         st = cur()
         st.notes.append('int()')
-        for _ in range(64):
+        LIMIT = 4
+        for k_ in range(LIMIT + 1):
             r = st.check(z3.BoolVal(True))
             if r != 'sat':
                 raise Budget('cannot enumerate int() of a symbolic real')
-            v = st.model.eval(s.t, model_completion=True)
             q = model_num(st.model, s.t)
             n = int(q)      # Fraction -> truncation towards zero
-            lo, hi = (n, n + 1) if q >= 0 else (n - 1, n)
-            c = z3.And(s.t >= lo, s.t < hi) if q >= 0 else z3.And(s.t > lo, s.t <= hi)
             if n == 0:
                 c = z3.And(s.t > -1, s.t < 1)
+            elif q >= 0:
+                c = z3.And(s.t >= n, s.t < n + 1)
+            else:
+                c = z3.And(s.t > n - 1, s.t <= n)
+            if k_ == LIMIT:
+                # unbounded (or large) range: the first LIMIT integer values were explored as paths of their own, the rest of
+                # the range is cut off HERE and reported (the obligation is then inconclusive outside those values)
+                st.stats['truncated'].append(f'int() of a symbolic real: explored the values reached first ({LIMIT}), the rest of its range is not covered')
+                raise Abort('int() range truncated')
             if st.branch(c):
                 return n
-        raise Budget('int() of a symbolic real has too many values')
 
     def __round__(s, n=None):
         """round(x, n): fresh r with |r - x| <= 0.5 * 10**-n (sound abstraction of decimal rounding)"""
@@ -1145,7 +1151,7 @@ class Path:
 
 def new_stats():
     return {'feas_queries': 0, 'feas_unknown': 0, 'solver_s': 0.0, 'paths': 0, 'aborted': 0,
-            'decisions': 0}
+            'decisions': 0, 'truncated': []}
 
 
 def explore(fn, base=(), stats=None, max_paths=5000, wall_s=None):
